@@ -12,6 +12,7 @@ pub mod c20;
 pub mod c21;
 pub mod c22;
 pub mod c26;
+pub mod c28;
 
 fn one(_: Tier) -> usize { 1 }
 
@@ -26,6 +27,7 @@ pub fn all() -> Vec<CheckDef> {
         CheckDef { id: "C21", shards: one, run: c21::run, replay: Some(c21::replay) },
         CheckDef { id: "C22", shards: one, run: c22::run, replay: Some(c22::replay) },
         CheckDef { id: "C26", shards: one, run: c26::run, replay: Some(c26::replay) },
+        CheckDef { id: "C28", shards: one, run: c28::run, replay: Some(c28::replay) },
     ]
 }
 
